@@ -2,6 +2,7 @@ package route
 
 import (
 	"fmt"
+	"math"
 	"sync"
 	"sync/atomic"
 	"time"
@@ -53,7 +54,7 @@ type KafkaMdm struct {
 // NewKafkaMdm creates a special route that writes to a grafana.net datastore
 // We will automatically run the route and the destination
 func NewKafkaMdm(key string, matcher matcher.Matcher, topic, codec, schemasFile, partitionBy string, brokers []string, bufSize, orgId, flushMaxNum, flushMaxWait, timeout int, blocking bool, tlsEnabled, tlsSkipVerify bool, tlsClientCert, tlsClientKey string, saslEnabled bool, saslMechanism string, saslUsername, saslPassword string) (Route, error) {
-	if bufSize < 0 || flushMaxNum < 0 || flushMaxWait <= 0 || len(brokers) == 0 {
+	if bufSize < 0 || bufSize > math.MaxInt32 || flushMaxNum < 0 || flushMaxWait <= 0 || len(brokers) == 0 {
 		return nil, fmt.Errorf("kafkaMdm %q: need at least one broker, bufSize and flushMaxNum >= 0, flushMaxWait > 0", key)
 	}
 	schemas, err := getSchemas(schemasFile)
